@@ -39,7 +39,7 @@ CHECKS = {
     ref="§4 C17"),
   "C16": dict(
     text="For every non-flex constraint-row builder (dense/sparse x newton/cg) one generic thread is executed symbolically with capacities, counters, tid and all array contents symbolic: rows this thread allocated that fit njmax / njmax_nnz are completely written (every efc field, dense and sparse Jacobian), written values do not depend on the capacity (relational query), and _next_time sets each overflow bit iff its condition. Unsat = holds for all values within the bounds; sat models are replayed on the real compiled kernel.",
-    note="Bounds: loop trip counts <= 3 (nv columns, dof-ancestor walks), array dims <= 6 in replays. Assumes own accesses in bounds; floats abstracted. The njmax_nnz budget is a recorded known finding (two entries in known_findings.txt). Contacts / broadphase / nvmax capacities: see level_note of C17 and evidence.",
+    note="Bounds: loop trip counts <= 3 (nv columns, dof-ancestor walks), array dims <= 6 in replays. Assumes own accesses in bounds; floats abstracted. The njmax_nnz budget is a recorded known finding (two entries in known_findings.txt). Host unit host/collision: the top-level early-outs of collision_driver.collision are read from the source and encoded (naconmax an integer >= 0, disableflags a 32-bit vector; helper calls are not followed): the broadphase is reached for every capacity except naconmax == 0 (known finding, replayed through the public API). Contacts / broadphase / nvmax capacities: see level_note of C17 and evidence.",
     technique="symbolic execution of Warp kernel source (AST -> z3) + SMT queries over the thread's write set",
     ref="§4 C16"),
 }
